@@ -6,6 +6,7 @@ package mimetype
 // g.rng (seeded from VERIF_SEED and the slice name), so a run is replayable.
 
 import (
+	"bytes"
 	"encoding/hex"
 	stdjson "encoding/json"
 	"fmt"
@@ -159,6 +160,32 @@ func (g *vfGen) genDets() {
 		}
 		seeds = append(seeds, []byte{}, g.bytes(8), g.bytes(64))
 		seeds = append(seeds, directed[name]...)
+		// kind-specific placements: the combinators compare positions (an XML local name must not be at
+		// index 0 and must precede the namespace; both are searched in the first 512 bytes after white space;
+		// shebang / markup / case-insensitive prefixes sit at the very start, after white space or a BOM)
+		if k := fx.Detectors[name]; k == "xml" || k == "shebang" || k == "ciPrefix" || k == "markup" {
+			var lits [][]byte
+			for _, sh := range fx.Signatures[name] {
+				b, _ := hex.DecodeString(sh)
+				lits = append(lits, b)
+			}
+			for i, a := range lits {
+				la := append([]byte("<"), a...)
+				for _, pre := range []string{"", " ", "\n\t ", "x", "<?xml version=\"1.0\"?>", "\xef\xbb\xbf", "#!", "#! "} {
+					for _, post := range []string{"", " ", ">", "\n", " a=\"b\">"} {
+						seeds = append(seeds, []byte(pre+string(a)+post), []byte(pre+string(la)+post))
+					}
+				}
+				for j, b := range lits {
+					if i != j {
+						seeds = append(seeds, []byte("<r>"+string(la)+" "+string(b)+">"), []byte("<r "+string(b)+">"+string(la)+">"), []byte(string(la)+" "+string(b)), []byte(string(b)+string(la)))
+					}
+				}
+				for _, pad := range []int{500, 505, 508, 511, 512, 513} {
+					seeds = append(seeds, append(append([]byte("<x>"), bytes.Repeat([]byte("y"), pad)...), la...))
+				}
+			}
+		}
 		// compound files carrying each 16-byte literal of the check as the root CLSID (v3 and v4 sectors)
 		for _, lh := range fx.Signatures[name] {
 			lit, _ := hex.DecodeString(lh)
